@@ -15,9 +15,6 @@ AUDITED = {
     "SongBuilder::into_song|panic:panic": (
         1, "assert!(!url.is_empty()): into_song is reached only from handle_song_field (field() "
            "dispatches there only when url is non-empty) and from finish() behind the same test"),
-    "parse_sticker_value|call:String::truncate": (
-        1, "truncate(key.len()) where key is the prefix returned by split_once('=') on the same "
-           "string: a char boundary not beyond the end"),
     "<GroupedListValuesIter<'a, N> as Iterator>::next|assert:bounds(N,_)": (
         1, "index obtained from position() over grouping_tags: [Tag; N]; grouping_values has the "
            "same length N by type"),
@@ -220,6 +217,15 @@ def run(rep, progs, tier):
             cap = panics.constant_capacity(prog, s)
             if cap is not None:
                 rep.ok("C12.inventory", inst, detail={"where": s.where, "discharged": "capacity is the compile-time constant %d" % cap})
+                continue
+            if s.kind == "call:alloc::string::String::truncate":
+                why = panics.truncate_at_prefix_len(prog, s)
+                if why is not None:
+                    rep.ok("C12.inventory", inst, detail={"where": s.where, "discharged": why})
+                else:
+                    rep.fail("C12.inventory", inst, s.where,
+                             "String::truncate panics unless its argument is a character boundary of the string: here it is not the byte length of "
+                             "a prefix split off the same string (a character count or another string's length breaks on non-ASCII server text)")
                 continue
             rest.append(s)
         am = panics.AuditMatcher(AUDITED, rest)
